@@ -2,6 +2,7 @@ import Pyunicorn.Lemmas.Repr
 import Pyunicorn.Lemmas.ReprHist
 import Pyunicorn.Lemmas.ReprAttrs
 import Pyunicorn.Lemmas.ReprEdges
+import Pyunicorn.Lemmas.ReprSplit
 import Pyunicorn.Generated.ArithC05
 import Mathlib.Tactic.FieldSimp
 import Mathlib.Tactic.Ring
@@ -1373,5 +1374,330 @@ example : ValidRun exH.g.n exH.g.directed
 /-- igraph's tuples for a listing with one edge turned round -/
 example : [(2, 1), (0, 1)].map (normEdge false) = [(1, 2), (0, 1)]
     ∧ [(2, 1), (0, 1)].map (normEdge true) = [(2, 1), (0, 1)] := by decide
+
+/-! ## round 5: `splitted_copy` — the copy with one node split in two -/
+
+/-- **`splitted_copy(node, proportion)` of any live object**: for an object representing `σ`
+(any constructor path, any history, any edge order of its graph object) and an index that names
+a node (`-N ≤ node < N`, negative indices counted from the end) the call succeeds and returns an
+object on `N + 1` nodes representing `splitAbs N k p σ`: same directedness; the new node `N` is
+linked to `k` and to everything `k` is linked to (`splitRel`); weights `w` with `w[k]` divided
+into `(1-p)·w[k]` and `p·w[k]` (`splitW`); **every named link attribute** carried over under its
+name, transformed like the adjacency matrix (`splitV`); a fresh graph object.  Hypothesis
+`hlink`: the network has a link or the specification knows no attribute (on an edgeless network
+`set_link_attribute` creates nothing, so an attribute specified there does not exist and cannot
+be carried to the copy, which does have a link). -/
+theorem splitted_copy_spec (x : NetA) (σ : AbsA) (h : ReprsA x σ) (node : Int) (k : Nat)
+    (hk : splitNode x.core.N node = some k) (p : Rat)
+    (hlink : x.core.graph ≠ [] ∨ ∀ a, σ.V a = none) :
+    ∃ x', splittedCopyA x node p = .ok x' ∧ ReprsA x' (splitAbs x.core.N k p σ)
+      ∧ x'.core.N = x.core.N + 1 ∧ x'.core.directed = x.core.directed := by
+  obtain ⟨core, as⟩ := x
+  obtain ⟨hc, hna, hdir, hadj, hw, hgvw, hattr⟩ := h
+  have hc' : Coherent core := hc
+  obtain ⟨d, N, g, ea, vw, w, rfl, hg⟩ := hc'.exists_form
+  have hea : ea = none := hna
+  subst hea
+  have hdir' : d = σ.d := hdir
+  have hadj' : ∀ i j, i < N → j < N → rel d g i j = σ.a i j := hadj
+  have hw' : w = σ.w := hw
+  have hattr' : ∀ a, AttrOK d g as a (σ.V a) := hattr
+  have hk' : splitNode N node = some k := hk
+  have hkN : k < N := (splitNode_some hk').1
+  have hlink' : g ≠ [] ∨ ∀ a, σ.V a = none := hlink
+  have hex : ∀ a W, σ.V a = some W → ∃ vs, as.get a = some vs := by
+    intro a W hV
+    rcases hlink' with hl | hl
+    · have := hattr' a
+      rw [hV] at this
+      exact this.1 hl
+    · rw [hl a] at hV; cases hV
+  obtain ⟨as', hrun, hok⟩ := split_attrs_ok (vw := vw) (w := w) (as := as) k hkN (splitW w k p)
+    σ.a hadj' σ.V hattr' hex
+  have hs := splitRel_simple d (rel d g) N k (simple_rel d N g hg.noloop) hkN
+  have hwl : (splitW w k p).length = N + 1 := by rw [splitW_length, hg.wlen]
+  have hgood0 : Good d (N + 1) (graphEdges d (N + 1) (cells (N + 1) (splitRel (rel d g) N k)))
+      none none (splitW w k p) :=
+    good_graphEdges d (N + 1) (by omega) _ _ hwl none (fun _ h => by cases h)
+  refine ⟨⟨form d (N + 1) (graphEdges d (N + 1) (cells (N + 1) (splitRel (rel d g) N k)))
+      none none (splitW w k p), as'⟩, ?_, reprsA_form hgood0 hdir' ?_ (by rw [hw']; rfl) rfl hok,
+    rfl, rfl⟩
+  · show splittedCopyA ⟨form d N g none vw w, as⟩ node p = _
+    unfold splittedCopyA
+    have e0 : (form d N g none vw w).N = N := rfl
+    simp only [e0, hk', splitInit_form hg k hkN p]
+    exact congrArg Except.ok hrun
+  · intro i j hi hj
+    rw [rel_graphEdges d (N + 1) _ hs i j hi hj]
+    exact splitRel_congr hadj' hkN i j
+
+/-- **the remaining corner of `splitted_copy_spec`: an edgeless network** (where the
+specification cannot say which attributes exist — `set_link_attribute` creates nothing there, an
+adopted igraph object may still declare some): the copy carries exactly the names the dictionary
+of the original holds, each with the value 0 on its single link.  Together with
+`splitted_copy_spec` (a network with a link) this covers every live object. -/
+theorem splitted_copy_edgeless (x : NetA) (σ : AbsA) (h : ReprsA x σ) (node : Int) (k : Nat)
+    (hk : splitNode x.core.N node = some k) (p : Rat) (hE : x.core.graph = []) :
+    ∃ x', splittedCopyA x node p = .ok x'
+      ∧ ReprsA x' { splitAbs x.core.N k p σ with
+          V := fun a => (x.attrs.get a).map fun _ => fun _ _ => 0 }
+      ∧ x'.core.N = x.core.N + 1 := by
+  obtain ⟨core, as⟩ := x
+  obtain ⟨hc, hna, hdir, hadj, hw, hgvw, hattr⟩ := h
+  have hc' : Coherent core := hc
+  obtain ⟨d, N, g, ea, vw, w, rfl, hg⟩ := hc'.exists_form
+  have hea : ea = none := hna
+  subst hea
+  have hdir' : d = σ.d := hdir
+  have hadj' : ∀ i j, i < N → j < N → rel d g i j = σ.a i j := hadj
+  have hw' : w = σ.w := hw
+  have hk' : splitNode N node = some k := hk
+  have hkN : k < N := (splitNode_some hk').1
+  have hg0 : g = [] := hE
+  let V0 : String → Option (Nat → Nat → Rat) := fun a => (as.get a).map fun _ => fun _ _ => 0
+  have hattr0 : ∀ a, AttrOK d g as a (V0 a) := by
+    intro a
+    show AttrOK d g as a ((as.get a).map fun _ => fun _ _ => 0)
+    cases hget : as.get a with
+    | none => exact hget
+    | some vs => rw [hg0]; exact attrOK_nil d as a _
+  have hex : ∀ a W, V0 a = some W → ∃ vs, as.get a = some vs := by
+    intro a W hV
+    change (as.get a).map _ = some W at hV
+    cases hget : as.get a with
+    | none => rw [hget] at hV; cases hV
+    | some vs => exact ⟨vs, rfl⟩
+  obtain ⟨as', hrun, hok⟩ := split_attrs_ok (vw := vw) (w := w) (as := as) k hkN (splitW w k p)
+    σ.a hadj' V0 hattr0 hex
+  have hs := splitRel_simple d (rel d g) N k (simple_rel d N g hg.noloop) hkN
+  have hwl : (splitW w k p).length = N + 1 := by rw [splitW_length, hg.wlen]
+  have hgood0 : Good d (N + 1) (graphEdges d (N + 1) (cells (N + 1) (splitRel (rel d g) N k)))
+      none none (splitW w k p) :=
+    good_graphEdges d (N + 1) (by omega) _ _ hwl none (fun _ h => by cases h)
+  refine ⟨⟨form d (N + 1) (graphEdges d (N + 1) (cells (N + 1) (splitRel (rel d g) N k)))
+      none none (splitW w k p), as'⟩, ?_, reprsA_form hgood0 hdir' ?_ (by rw [hw']; rfl) rfl ?_,
+    rfl⟩
+  · show splittedCopyA ⟨form d N g none vw w, as⟩ node p = _
+    unfold splittedCopyA
+    have e0 : (form d N g none vw w).N = N := rfl
+    simp only [e0, hk', splitInit_form hg k hkN p]
+    exact congrArg Except.ok hrun
+  · intro i j hi hj
+    rw [rel_graphEdges d (N + 1) _ hs i j hi hj]
+    exact splitRel_congr hadj' hkN i j
+  · intro a
+    have := hok a
+    show AttrOK d _ as' a ((as.get a).map fun _ => fun _ _ => 0)
+    have e : (V0 a).map (splitV σ.a N k) = (as.get a).map fun _ => fun _ _ => 0 := by
+      show ((as.get a).map fun _ => fun _ _ => 0).map (splitV σ.a N k) = _
+      cases as.get a with
+      | none => rfl
+      | some vs => exact congrArg some (splitV_zero σ.a N k)
+    rw [← e]; exact this
+
+/-- the same **without `hlink`**, for everything but the attributes: whatever the dictionary of
+the original holds (also on an edgeless network), the call succeeds and — attributes set aside —
+the returned object represents the split relation and weights -/
+theorem splitted_copy_core (x : NetA) (σ : AbsA) (h : ReprsA x σ) (node : Int) (k : Nat)
+    (hk : splitNode x.core.N node = some k) (p : Rat) :
+    ∃ x', splittedCopyA x node p = .ok x'
+      ∧ ReprsA ⟨x'.core, []⟩ { splitAbs x.core.N k p σ with V := fun _ => none }
+      ∧ x'.core.N = x.core.N + 1 := by
+  obtain ⟨core, as⟩ := x
+  obtain ⟨hc, hna, hdir, hadj, hw, hgvw, hattr⟩ := h
+  have hc' : Coherent core := hc
+  obtain ⟨d, N, g, ea, vw, w, rfl, hg⟩ := hc'.exists_form
+  have hea : ea = none := hna
+  subst hea
+  have hdir' : d = σ.d := hdir
+  have hadj' : ∀ i j, i < N → j < N → rel d g i j = σ.a i j := hadj
+  have hw' : w = σ.w := hw
+  have hk' : splitNode N node = some k := hk
+  have hkN : k < N := (splitNode_some hk').1
+  have hs := splitRel_simple d (rel d g) N k (simple_rel d N g hg.noloop) hkN
+  have hwl : (splitW w k p).length = N + 1 := by rw [splitW_length, hg.wlen]
+  have hgood0 : Good d (N + 1) (graphEdges d (N + 1) (cells (N + 1) (splitRel (rel d g) N k)))
+      none none (splitW w k p) :=
+    good_graphEdges d (N + 1) (by omega) _ _ hwl none (fun _ h => by cases h)
+  refine ⟨as.foldl (splitStep ⟨form d N g none vw w, as⟩ k) (NetA.fresh (form d (N + 1)
+    (graphEdges d (N + 1) (cells (N + 1) (splitRel (rel d g) N k))) none none (splitW w k p))),
+    ?_, ?_, ?_⟩
+  · show splittedCopyA ⟨form d N g none vw w, as⟩ node p = _
+    unfold splittedCopyA
+    have e0 : (form d N g none vw w).N = N := rfl
+    simp only [e0, hk', splitInit_form hg k hkN p]
+    rfl
+  · rw [splitLoop_core]
+    refine reprsA_form hgood0 hdir' ?_ (by rw [hw']; rfl) rfl (fun a => attrOK_none_nil _ _ a)
+    intro i j hi hj
+    rw [rel_graphEdges d (N + 1) _ hs i j hi hj]
+    exact splitRel_congr hadj' hkN i j
+  · rw [splitLoop_core]; rfl
+
+/-- what `splitRel` says, cell by cell: among the old nodes nothing changes; the new node `N`
+has the in- and out-neighbours of `k`, and `k` itself (both directions); no self-loop -/
+theorem splitted_copy_relation (a : Nat → Nat → Bool) (N k : Nat) (hk : k < N) :
+    (∀ i j, i < N → j < N → splitRel a N k i j = a i j)
+    ∧ (∀ i, i < N → splitRel a N k i N = (decide (i = k) || a i k))
+    ∧ (∀ j, j < N → splitRel a N k N j = (decide (j = k) || a k j))
+    ∧ splitRel a N k N N = false := by
+  refine ⟨?_, ?_, ?_, ?_⟩
+  · intro i j hi hj
+    unfold splitRel
+    have h1 : ¬ ((i = k ∧ j = N) ∨ (i = N ∧ j = k)) := by omega
+    simp [h1, hi, hj]
+  · intro i hi
+    unfold splitRel
+    by_cases hik : i = k
+    · simp [hik]
+    · have h1 : ¬ ((i = k ∧ N = N) ∨ (i = N ∧ N = k)) := by omega
+      rw [if_neg h1]
+      simp [hi, hik]
+  · intro j hj
+    unfold splitRel
+    by_cases hjk : j = k
+    · simp [hjk]
+    · have h1 : ¬ ((N = k ∧ j = N) ∨ (N = N ∧ j = k)) := by omega
+      rw [if_neg h1]
+      simp [hj, hjk]
+  · unfold splitRel
+    have h1 : ¬ ((N = k ∧ N = N) ∨ (N = N ∧ N = k)) := by omega
+    rw [if_neg h1]
+    simp
+
+/-- the split network is again a simple graph (no self-loop at either half, symmetric when
+undirected) -/
+theorem splitted_copy_simple (d : Bool) (a : Nat → Nat → Bool) (N k : Nat) (hs : Simple d N a)
+    (hk : k < N) : Simple d (N + 1) (splitRel a N k) := splitRel_simple d a N k hs hk
+
+/-- **the total node weight is preserved** (the purpose of the method: n.s.i. measures are
+invariant under it), every other weight is untouched, one weight per node -/
+theorem splitted_copy_weights (w : List Rat) (k : Nat) (hk : k < w.length) (p : Rat) :
+    (splitW w k p).sum = w.sum ∧ (splitW w k p).length = w.length + 1
+    ∧ (splitW w k p)[k]? = some ((1 - p) * w.getD k 0)
+    ∧ (splitW w k p)[w.length]? = some (p * w.getD k 0)
+    ∧ ∀ i, i < w.length → i ≠ k → (splitW w k p)[i]? = w[i]? := by
+  refine ⟨?_, splitW_length w k p, ?_, ?_, ?_⟩
+  · have := sum_set_getD w k hk ((1 - p) * w.getD k 0)
+    unfold splitW
+    rw [List.sum_append, List.sum_singleton]
+    linarith
+  · unfold splitW
+    rw [List.getElem?_append_left (by simpa using hk)]
+    simp [hk]
+  · unfold splitW
+    rw [List.getElem?_append_right (by simp)]
+    simp
+  · intro i hi hik
+    unfold splitW
+    rw [List.getElem?_append_left (by simpa using hi)]
+    rw [List.getElem?_set_ne (fun h => hik h.symm)]
+
+/-- **link count of the split network** (the docstring's "6 nodes, 7 links → 7 nodes, 9 links"):
+the adjacency matrix gains one non-zero cell per in-neighbour and one per out-neighbour of `k`
+plus the two cells of the link between the halves; hence, undirected, `n_links' = n_links +
+degree(k) + 1`, and directed, `n_links' = n_links + indegree(k) + outdegree(k) + 2` -/
+theorem splitted_copy_n_links (d : Bool) (a : Nat → Nat → Bool) (N k : Nat) (hs : Simple d N a)
+    (hk : k < N) (w w' : List Rat) (ea ea' : Option (List Rat)) :
+    (cells (N + 1) (splitRel a N k)).length
+        = (cells N a).length + ((List.range N).filter fun i => a i k).length
+          + ((List.range N).filter fun j => a k j).length + 2
+    ∧ (d = false → (ofGraph false (N + 1) (splitRel a N k) w' ea').nLinks
+        = (ofGraph false N a w ea).nLinks + ((List.range N).filter fun j => a k j).length + 1)
+    ∧ (d = true → (ofGraph true (N + 1) (splitRel a N k) w' ea').nLinks
+        = (ofGraph true N a w ea).nLinks + ((List.range N).filter fun i => a i k).length
+          + ((List.range N).filter fun j => a k j).length + 2) := by
+  have hc := cells_split_length a N k hk (hs.irr k hk)
+  refine ⟨hc, ?_, ?_⟩
+  · intro hd
+    subst hd
+    have hs' := splitRel_simple false a N k hs hk
+    have h1 := cells_length_undirected N a (hs.sym rfl) hs.irr
+    have h2 := cells_length_undirected (N + 1) _ (hs'.sym rfl) hs'.irr
+    have hsym : ((List.range N).filter fun i => a i k) = (List.range N).filter fun j => a k j := by
+      apply List.filter_congr
+      intro i hi
+      rw [List.mem_range] at hi
+      exact hs.sym rfl i k hi hk
+    rw [hsym] at hc
+    show (if false = true then (cells (N + 1) (splitRel a N k)).length
+        else (cells (N + 1) (splitRel a N k)).length / 2)
+      = (if false = true then (cells N a).length else (cells N a).length / 2) + _ + 1
+    simp only [Bool.false_eq_true, if_false]
+    omega
+  · intro hd
+    subst hd
+    show (if true = true then (cells (N + 1) (splitRel a N k)).length
+        else (cells (N + 1) (splitRel a N k)).length / 2)
+      = (if true = true then (cells N a).length else (cells N a).length / 2) + _ + _ + 2
+    simp only [if_true]
+    exact hc
+
+/-- the observable consequences on the object returned: `N + 1` nodes, total node weight
+unchanged, mean `= total / (N + 1)`, adjacency = indicator of `splitRel`, and for every name the
+`link_attribute` matrix is the transformed one on the links and 0 elsewhere -/
+theorem splitted_copy_observables (x : NetA) (σ : AbsA) (h : ReprsA x σ) (node : Int) (k : Nat)
+    (hk : splitNode x.core.N node = some k) (p : Rat)
+    (hlink : x.core.graph ≠ [] ∨ ∀ a, σ.V a = none) :
+    ∃ x', splittedCopyA x node p = .ok x' ∧ x'.core.N = x.core.N + 1
+      ∧ x'.core.total = x.core.total
+      ∧ x'.core.mean = x.core.total / ((x.core.N + 1 : Nat) : Rat)
+      ∧ x'.core.spA = table (x.core.N + 1) (ind (splitRel σ.a x.core.N k))
+      ∧ ∀ a V, σ.V a = some V → ∃ f, linkAttrA x' a = some f ∧
+          ∀ i j, i < x.core.N + 1 → j < x.core.N + 1 →
+            f i j = if splitRel σ.a x.core.N k i j then splitV σ.a x.core.N k V i j else 0 := by
+  obtain ⟨x', hrun, hr, hN, _⟩ := splitted_copy_spec x σ h node k hk p hlink
+  have hkN : k < x.core.N := (splitNode_some hk).1
+  obtain ⟨hcore', _, hattr'⟩ := reprsA_observables hr
+  obtain ⟨hcore, _, _⟩ := reprsA_observables h
+  have hwlen : σ.w.length = x.core.N := by rw [← h.w]; exact h.coh.good.wlen
+  have htot : x.core.total = σ.w.sum := by rw [hcore]; rfl
+  have hsum := (splitted_copy_weights σ.w k (by omega) p).1
+  refine ⟨x', hrun, hN, ?_, ?_, ?_, ?_⟩
+  · rw [hcore', htot]; exact hsum
+  · rw [hcore', htot, hN]
+    show (splitW σ.w k p).sum / _ = _
+    rw [hsum]
+  · rw [hcore', hN]; rfl
+  · intro a V hV
+    have := hattr' a
+    rw [show (splitAbs x.core.N k p σ).V a = some (splitV σ.a x.core.N k V) by
+      show (σ.V a).map _ = _
+      rw [hV]; rfl] at this
+    obtain ⟨f, hf, hfV⟩ := this
+    refine ⟨f, hf, ?_⟩
+    intro i j hi hj
+    rw [hfV i j (by omega) (by omega)]
+    rfl
+
+/-- an index that names no node (`node ≥ N` or `node < -N`) raises `IndexError` -/
+theorem splitted_copy_index_error (x : NetA) (node : Int) (p : Rat)
+    (h : (x.core.N : Int) ≤ node ∨ node < -(x.core.N : Int)) :
+    splittedCopyA x node p = .error .indexError := by
+  unfold splittedCopyA
+  rw [splitNode_none.2 h]
+
+/-! non-vacuity, round 5 -/
+
+/-- `exA` (path 0-1-2 plus the isolated node 3) with node 1 split: the new node 4 is linked to
+0, 1 and 2; splitting the isolated node 3 links only the two halves -/
+example : (cells 5 (splitRel exA 4 1)).length = 2 * 5
+    ∧ (cells 5 (splitRel exA 4 3)).length = 2 * 3 := by decide
+example : splitNode 4 (-3) = some 1 ∧ splitNode 4 1 = some 1 ∧ splitNode 4 4 = none
+    ∧ splitNode 4 (-5) = none := by decide
+/-- `splitted_copy_n_links` on `exA`: node 1 has degree 2, so 2 links become 2 + 2 + 1 = 5 -/
+example : (ofGraph false 5 (splitRel exA 4 1) [] none).nLinks = 5
+    ∧ (ofGraph false 4 exA [] none).nLinks = 2
+    ∧ ((List.range 4).filter fun j => exA 1 j).length = 2 := by decide
+example : splitW exW 1 (1 / 4) = [1, 3 / 2, 3 / 2, 0, 1 / 2] := by norm_num [splitW, exW]
+/-- the hypotheses of `splitted_copy_spec` are satisfiable: a constructed network, no attribute -/
+example : ∃ x σ, ReprsA x σ ∧ splitNode x.core.N (-3) = some 1
+    ∧ (x.core.graph ≠ [] ∨ ∀ a, σ.V a = none) :=
+  ⟨_, _, constructed_reprsA false 4 (by decide) exA ⟨by decide, fun _ => forall_lt_lt (by decide)⟩
+    exW rfl, by decide, Or.inr fun _ => rfl⟩
+/-- the link between the two halves carries `W[k, k]` of the masked matrix, i.e. 0 -/
+example : splitV exA 4 1 (fun _ _ => 7) 1 4 = 0 ∧ splitV exA 4 1 (fun _ _ => 7) 0 4 = 7
+    ∧ splitV exA 4 1 (fun _ _ => 7) 0 1 = 7 := by
+  refine ⟨?_, ?_, ?_⟩ <;> simp [splitV, splitAttr, exA]
 
 end Pyunicorn.Repr
